@@ -10,12 +10,23 @@
      - the tables are exactly the documented ones: URL checking on, relative URLs allowed, schemes
        exactly mailto/http/https without custom checks or patterns, rel=nofollow required, no style
        rules, no data attributes, no comments, no rewriter (so C03 applies with that allowlist).
-   Missing: the DOM clause (tree builder) and the converse pass-through statement for whole documents
-   (round-trip theorem not done); both are exercised by the C01/C07 oracles through UGCPolicy. *)
+   Proved on the BYTES of the output, for every input byte string (round-trip theorem):
+     - StrictPolicy's output contains no less-than or greater-than byte, a tokenizer reads nothing but
+       text from it, and sanitizing it again returns it unchanged;
+     - every tag a tokenizer reads from UGCPolicy's output names a documented, non-forbidden element,
+       every attribute on it is forced (rel, target, crossorigin, sandbox) or documented for that
+       element or global, and is no event-handler or style attribute; the value of the element's URL
+       attribute is u.String() of a parsed URL whose scheme is empty or one of mailto, http, https;
+       no comment or doctype is read;
+     - conversely a document that is the canonical serialisation of items UGCPolicy leaves alone is
+       returned byte for byte (C04_ugc_pass_through, with a concrete instance).
+   Missing: the DOM clause (x/net/html's tree builder is not modelled); exercised by the C01/C07
+   oracles through UGCPolicy in ten containers. *)
 From Coq Require Import List NArith Bool String.
 Import ListNotations.
-From BM Require Import Bytes Strings Regex Tokenizer Policy Attrs Loop Builder LoopInv LoopProps AttrsSound
-                       GenScripts Forced UGCSpec C04Inst C01.
+From BM Require Import Bytes Strings Escape Regex Tokenizer Policy Url Attrs Loop Builder LoopInv LoopProps AttrsSound
+                       EscapeProofs Retokenize SanRoundTrip TokenLevel AttrProvenance PassThrough
+                       GenTables GenScripts Forced UGCSpec C04Inst PlainInst C01.
 Open Scope N_scope.
 
 Lemma lookup_In {V} k (m : amap V) v : lookup k m = Some v -> exists k', beqb k' k = true /\ In (k', v) m.
@@ -65,6 +76,179 @@ Section C04.
     destruct t as [d|n a|n|n a|d|d]; try contradiction; exists n; (split; [eauto|apply P; exact H]).
   Qed.
 
+  (* ---- the bytes of StrictPolicy's output ---- *)
+  Theorem C04_strict_no_markup : forall s,
+    (forall c, In c (sanitize_bytes I strict s) -> c <> 60 /\ c <> 62) /\
+    (forall t, In t (tokenize (sanitize_bytes I strict s)) -> exists d, t = TText d).
+  Proof.
+    intros s. split.
+    - intros c Hin. unfold sanitize_bytes, sanitize_tokens in Hin.
+      apply in_concat in Hin as (b & Hb & Hc). apply in_map_iff in Hb as (it & <- & Hit).
+      destruct (C04_strict_text_only _ _ Hit) as (d & ->). cbn [render_item] in Hc.
+      destruct (escape_inert d c Hc) as (H1 & H2 & _). auto.
+    - intros t Hin. pose proof (C01_output_tokens smatcher unit unit I strict (strict_plain I) s t Hin) as H.
+      destruct t as [d|n a|n|n a|d|d]; try contradiction; eauto; rewrite (strict_nothing I) in H; discriminate.
+  Qed.
+
+  Theorem C04_strict_idempotent : forall s,
+    sanitize_bytes I strict (sanitize_bytes I strict s) = sanitize_bytes I strict s.
+  Proof.
+    apply (sanitize_idempotent I strict (strict_plain I)).
+    intros n a aps Hp. pose proof (element_policies_allowed I strict n) as E.
+    rewrite (strict_nothing I), Hp in E. discriminate.
+  Qed.
+
+  (* ---- the bytes of UGCPolicy's output ---- *)
+  Lemma ugc_element_policies n aps : element_policies I ugc n = Some aps -> lookup n (elsAndAttrs ugc) = Some aps.
+  Proof.
+    unfold element_policies. destruct (lookup n (elsAndAttrs ugc)); [auto|].
+    unfold match_regex, matching_entries. rewrite ugc_no_patterns. cbn. discriminate.
+  Qed.
+
+  Lemma ugc_no_style_policies n : has_style_policies I ugc n = false.
+  Proof.
+    destruct ugc_no_styles_no_data as (E1 & E2 & E3 & _). unfold has_style_policies. rewrite E1, E2, E3. reflexivity.
+  Qed.
+
+  Lemma lookup_has_key {V} k (m : amap V) v : lookup k m = Some v -> has_key k m = true.
+  Proof. unfold has_key. intros ->. reflexivity. Qed.
+
+  Lemma rules_accept_key (rules : amap (list (attr_policy smatcher))) a : rules_accept I rules a = true -> mem (akey a) (keys rules) = true.
+  Proof.
+    unfold rules_accept. destruct (lookup (akey a) rules) eqn:E; [|discriminate]. intros _.
+    apply has_key_mem. eapply lookup_has_key; eauto.
+  Qed.
+
+  Definition ugc_attr_documented (n k : bytes) : Prop :=
+    forced_key k = true \/
+    (exists attrs, lookup n ugc_vocabulary = Some attrs /\ mem k attrs = true) \/
+    mem k ugc_global_attrs = true.
+
+  Lemma ugc_rule_keys n aps k : lookup n (elsAndAttrs ugc) = Some aps -> mem k (keys aps) = true ->
+    (exists attrs, lookup n ugc_vocabulary = Some attrs /\ mem k attrs = true) /\ event_or_style_attr k = false.
+  Proof.
+    intros Hl Hk. destruct (lookup_In _ _ _ Hl) as (n' & En & Hin). apply beqb_eq in En. subst n'.
+    pose proof ugc_attr_names_documented as T. rewrite forallb_forall in T. specialize (T _ Hin). cbn [fst snd] in T.
+    destruct (lookup n ugc_vocabulary) as [attrs|]; [|discriminate]. split.
+    - exists attrs. split; [reflexivity|]. unfold subset in T. rewrite forallb_forall in T. apply T. apply mem_In. exact Hk.
+    - destruct ugc_no_event_or_style_names as [T2 _]. rewrite forallb_forall in T2. specialize (T2 _ Hin). cbn [snd] in T2.
+      rewrite forallb_forall in T2. apply mem_In in Hk. specialize (T2 _ Hk). apply negb_true_iff in T2. exact T2.
+  Qed.
+
+  Lemma ugc_global_keys k : mem k (keys (globalAttrs ugc)) = true ->
+    mem k ugc_global_attrs = true /\ event_or_style_attr k = false.
+  Proof.
+    intros Hk. split.
+    - pose proof ugc_global_names_documented as T. unfold subset in T. rewrite forallb_forall in T. apply T. apply mem_In. exact Hk.
+    - destruct ugc_no_event_or_style_names as [_ T2]. rewrite forallb_forall in T2. apply mem_In in Hk. specialize (T2 _ Hk).
+      apply negb_true_iff in T2. exact T2.
+  Qed.
+
+  Lemma forced_not_event k : forced_key k = true -> event_or_style_attr k = false.
+  Proof.
+    unfold forced_key. intros H. repeat (apply orb_true_iff in H as [H|H]); apply beqb_eq in H; subst k; vm_compute; reflexivity.
+  Qed.
+
+  (* one attribute of one kept UGC tag *)
+  Lemma ugc_attr n a aps kv : lookup n (elsAndAttrs ugc) = Some aps -> In kv (clean_attrs I ugc n a aps) ->
+    ugc_attr_documented n (fst kv) /\ event_or_style_attr (fst kv) = false /\
+    (url_checked ugc n kv = true ->
+       exists raw u, url_parse I raw = Some u /\ snd kv = u_string u /\
+         (u_scheme u = [] \/ mem (u_scheme u) ugc_schemes = true)).
+  Proof.
+    intros Hl Hin. unfold clean_attrs in Hin. destruct a as [|a0 a']; [contradiction|].
+    destruct (sanitize_attrs_justified I ugc n _ aps kv Hin) as [Hf|(x0 & x1 & _ & Hj & Hr)].
+    - split; [left; exact Hf|]. split; [apply forced_not_event; exact Hf|].
+      intros Hu. exfalso. unfold url_checked in Hu. unfold url_attr_of in Hu.
+      destruct (linkable n && requireParseableURLs ugc); [|discriminate]. cbn [andb] in Hu.
+      unfold forced_key in Hf. unfold key_is in Hu.
+      repeat (apply orb_true_iff in Hf as [Hf|Hf]); apply beqb_eq in Hf; rewrite Hf in Hu;
+        destruct (mem n href_elements); try discriminate; destruct (mem n cite_elements); try discriminate;
+        destruct (mem n src_elements); discriminate.
+    - destruct ugc_no_styles_no_data as (_ & _ & _ & Ed).
+      assert (Hkey : akey kv = akey x1).
+      { destruct Hr as [[-> _]|(_ & _ & _ & k & u & _ & _ & _ & ->)]; reflexivity. }
+      assert (Hx1 : (mem (akey x1) (keys aps) = true \/ mem (akey x1) (keys (globalAttrs ugc)) = true) /\ x1 = x0).
+      { destruct Hj as [(Hd & _)|[(_ & Hs & _)|[(Hra & ->)|(Hra & ->)]]].
+        - congruence.
+        - rewrite ugc_no_style_policies in Hs. discriminate.
+        - split; [left; apply rules_accept_key; exact Hra | reflexivity].
+        - split; [right; apply rules_accept_key; exact Hra | reflexivity]. }
+      destruct Hx1 as [Hk _]. unfold akey in Hkey. rewrite Hkey. fold (akey x1).
+      split; [|split].
+      + destruct Hk as [Hk|Hk]; [right; left; exact (proj1 (ugc_rule_keys _ _ _ Hl Hk)) | right; right; exact (proj1 (ugc_global_keys _ Hk))].
+      + destruct Hk as [Hk|Hk]; [exact (proj2 (ugc_rule_keys _ _ _ Hl Hk)) | exact (proj2 (ugc_global_keys _ Hk))].
+      + intros Hu. destruct ugc_url_settings as (Hp & Hrel & Hre & Hrw & Hsch & Hemp).
+        destruct Hr as [[-> Hnc]|(_ & _ & _ & k & u & Hk1 & Hk2 & Hv & ->)]; [congruence|].
+        destruct (valid_url_sound I ugc (aval x1) u Hp Hv) as (parsed & pu & Hparse & Hout & Hsc & _).
+        exists parsed, pu. split; [exact Hparse|]. split.
+        * cbn [snd]. rewrite Hrw. destruct (beqb k (B"src")); exact Hout.
+        * destruct (u_scheme pu) as [|c sc] eqn:Es; [left; reflexivity|]. right.
+          assert (Hne : c :: sc <> []) by discriminate. specialize (Hsc Hne). unfold scheme_ok in Hsc. rewrite Es in Hsc.
+          destruct (lookup (c :: sc) (allowURLSchemes ugc)) eqn:Elk.
+          -- unfold subset in Hsch. rewrite forallb_forall in Hsch. apply Hsch. apply mem_In. apply has_key_mem.
+             eapply lookup_has_key; eauto.
+          -- rewrite Hre in Hsc. discriminate.
+  Qed.
+
+  Theorem C04_ugc_output_tokens : forall s t, In t (tokenize (sanitize_bytes I ugc s)) ->
+    match t with
+    | TText _ => True
+    | TEnd n => mem n (map fst ugc_vocabulary) = true /\ mem n ugc_forbidden_elements = false
+    | TStart n a | TSelf n a =>
+        mem n (map fst ugc_vocabulary) = true /\ mem n ugc_forbidden_elements = false /\
+        forall kv, In kv a ->
+          ugc_attr_documented n (fst kv) /\ event_or_style_attr (fst kv) = false /\
+          (url_checked ugc n kv = true ->
+             exists raw u, url_parse I raw = Some u /\ snd kv = u_string u /\
+               (u_scheme u = [] \/ mem (u_scheme u) ugc_schemes = true))
+    | TComment _ | TDoctype _ => False
+    end.
+  Proof.
+    intros s t Hin.
+    assert (P : forall n, elem_allowed I ugc n = true -> mem n (map fst ugc_vocabulary) = true /\ mem n ugc_forbidden_elements = false).
+    { intros n Hn. unfold elem_allowed in Hn. rewrite ugc_no_patterns in Hn. cbn [existsb] in Hn. rewrite orb_false_r in Hn.
+      apply has_key_mem in Hn. split.
+      - pose proof ugc_elements_documented as T. unfold subset in T. rewrite forallb_forall in T.
+        apply T. apply mem_In. exact Hn.
+      - destruct (mem n ugc_forbidden_elements) eqn:E; auto. apply mem_In in E.
+        pose proof ugc_nothing_forbidden as F. rewrite forallb_forall in F. specialize (F _ E).
+        apply negb_true_iff in F. unfold keys in F. congruence. }
+    pose proof (output_token_provenance smatcher unit unit I ugc (ugc_plain I) s t Hin) as H.
+    destruct t as [d|n a|n|n a|d|d]; auto.
+    - destruct H as (Hal & _ & a0 & aps & _ & Hp & -> & _). destruct (P n Hal) as [P1 P2].
+      split; [exact P1|]. split; [exact P2|]. intros kv Hkv. eapply ugc_attr; [apply ugc_element_policies; exact Hp | exact Hkv].
+    - destruct H as (_ & Hal & _). exact (P n Hal).
+    - destruct H as (Hal & _ & a0 & aps & _ & Hp & -> & _). destruct (P n Hal) as [P1 P2].
+      split; [exact P1|]. split; [exact P2|]. intros kv Hkv. eapply ugc_attr; [apply ugc_element_policies; exact Hp | exact Hkv].
+  Qed.
+
+  (* the converse: canonical documents in the vocabulary are returned byte for byte *)
+  Theorem C04_ugc_pass_through : forall its, Forall item_ok its -> Forall (canon_item I ugc) its ->
+    sanitize_bytes I ugc (render_items its) = render_items its.
+  Proof. apply pass_through. Qed.
+
+  Definition sample_doc : list item :=
+    [ITag (TStart (B"p") []); IText (B"a < b & c"); ITag (TStart (B"b") []); IText (B"bold");
+     ITag (TEnd (B"b")); ITag (TEnd (B"p"))].
+  Example C04_sample_doc_conforms : Forall item_ok sample_doc /\ Forall (canon_item I ugc) sample_doc.
+  Proof.
+    assert (Hn : forall n, n = B"p" \/ n = B"b" -> RoundTrip.name_ok n).
+    { intros n [-> | ->]; (split; [eexists _, _; split; reflexivity | repeat constructor]). }
+    assert (Hc : forall n, n = B"p" \/ n = B"b" -> canon_item I ugc (ITag (TStart n []))).
+    { intros n [-> | ->]; (split; [vm_compute; reflexivity|]); eexists; (split; [vm_compute; reflexivity|]);
+        (split; [reflexivity|]); intros _; vm_compute; reflexivity. }
+    split.
+    - repeat constructor; try (apply Hn; auto).
+    - repeat (constructor; [first [exact Logic.I | apply Hc; auto | split; vm_compute; reflexivity]|]). constructor.
+  Qed.
+  Example C04_sample_doc_unchanged :
+    sanitize_bytes I ugc (B"<p>a &lt; b &amp; c<b>bold</b></p>") = B"<p>a &lt; b &amp; c<b>bold</b></p>".
+  Proof.
+    change (B"<p>a &lt; b &amp; c<b>bold</b></p>") with (render_items sample_doc).
+    apply C04_ugc_pass_through; apply C04_sample_doc_conforms.
+  Qed.
+
   (* the tables are the documented ones *)
   Theorem C04_ugc_tables : ugc_tables_ok = true /\ strict_tables_ok = true.
   Proof. split; [exact ugc_tables_documented | exact strict_tables_empty]. Qed.
@@ -73,3 +257,7 @@ End C04.
 Print Assumptions C04_strict_text_only.
 Print Assumptions C04_ugc_tags.
 Print Assumptions C04_ugc_tables.
+Print Assumptions C04_strict_no_markup.
+Print Assumptions C04_strict_idempotent.
+Print Assumptions C04_ugc_output_tokens.
+Print Assumptions C04_ugc_pass_through.
